@@ -200,6 +200,15 @@ def d2_d3_d4_mutators(ctx, c, reader):
                           st.targets[0].value.id == var]
                 if stores and must_precede(g, call, stores):
                     r_empty = False
+                # ... or merged in with `d.update(<display with at least one item>)`
+                def _nonempty_display(e):
+                    e = inline(g, e) if isinstance(e, ast.Name) else e
+                    return isinstance(e, ast.Dict) and len(e.keys) >= 1 and all(k is not None for k in e.keys)
+                merges = [st for st in own_nodes(g.node) if isinstance(st, ast.Call) and isinstance(st.func, ast.Attribute) and
+                          st.func.attr == 'update' and isinstance(st.func.value, ast.Name) and st.func.value.id == var and
+                          len(st.args) == 1 and not st.keywords and _nonempty_display(st.args[0])]
+                if merges and must_precede(g, call, merges):
+                    r_empty = False
                 r_full = _ru(g, call, _folder(dict(modes, **{var: {'k': 1}}), g))
                 if r_empty is not False and r_full is not False and r_empty is not True:
                     # the write is reachable for an empty dictionary only through a test that could not be folded
@@ -390,6 +399,19 @@ def d5_forwarding(ctx, c):
     ok = any(isinstance(n, ast.Call) and dotted(n.func) == 'self.update' and len(n.args) == 1 and
              isinstance(n.args[0], ast.Dict) and len(n.args[0].keys) == 1 and
              norm(n.args[0].keys[0]) == key and norm(n.args[0].values[0]) == val for n in own_nodes(si.node))
+    if not ok:
+        # a mutator of its own (read, store the one item, persist — persistence and the mode gate are decided by D2 and
+        # C11): the store is `d[key] = value` or `d.update({key: value})` on the dictionary the reader returned
+        def one_item(e):
+            e = inline(si, e) if isinstance(e, ast.Name) else e
+            return isinstance(e, ast.Dict) and len(e.keys) == 1 and norm(e.keys[0]) == key and norm(e.values[0]) == val
+        stores = [n for n in own_nodes(si.node) if
+                  (isinstance(n, ast.Assign) and len(n.targets) == 1 and isinstance(n.targets[0], ast.Subscript) and
+                   norm(n.targets[0].slice) == key and norm(n.value) == val and DICT in ctx.R.etype(n.targets[0].value, si)) or
+                  (isinstance(n, ast.Call) and isinstance(n.func, ast.Attribute) and n.func.attr == 'update' and
+                   len(n.args) == 1 and not n.keywords and one_item(n.args[0]) and DICT in ctx.R.etype(n.func.value, si))]
+        ok = bool(stores) and bool(_write_sites(ctx, si) or [
+            1 for _, cal in ctx.E.callees(si) if cal.cls is c and _write_sites(ctx, cal)])
     ctx.decide(ok, 'R-FLOW', 'D5', si, None, 'setitem-via-update', '__setitem__ delegates to update({key: value})',
                detail='__setitem__ does not go through update')
     key = [p for p in di.params if p != 'self'][0]
